@@ -254,7 +254,12 @@ def rule_inheritance_shape(ctx, p, cfg, rid="R4"):
 
 
 def run_cfg_after_r4(ctx, p, cfg):
-    with ctx.rule("R5", "longest-prefix walk", cfg) as r:
+    rule_longest_prefix_walk(ctx, p, cfg, "R5")
+    run_cfg_after_r5(ctx, p, cfg)
+
+
+def rule_longest_prefix_walk(ctx, p, cfg, rid="R5"):
+    with ctx.rule(rid, "longest-prefix walk", cfg) as r:
         ro = anchors.routing(p)
         f = ro["find"]
         lvl, apps, kids = node_fields(p, ro)
@@ -295,6 +300,8 @@ def run_cfg_after_r4(ctx, p, cfg):
             bad = [x[1].rsplit("::", 1)[-1] for x in walk(it) if x[0] == "call" and x[1].rsplit("::", 1)[-1] in ("rev", "rsplit", "skip", "filter", "take", "rsplitn")] if it else ["?"]
             r.require(not bad, "components-left-to-right", fn=f, detail="iterator adaptors: %s" % bad)
 
+
+def run_cfg_after_r5(ctx, p, cfg):
     with ctx.rule("R6", "threshold comparator", cfg) as r:
         ro = anchors.routing(p)
         pred = ro["enabled_pred"]
